@@ -231,6 +231,25 @@ func main() {
 			}
 		}
 	}
+	// valid encodings beyond the client's 16-element walk limit (the codec has no such limit): they must
+	// decode, re-encode and decode again like any other message
+	for _, n := range []int{16, 17, 18, 40, 300} {
+		names := make([]string, n)
+		qids := make([]p9p.Qid, n)
+		for i := range names {
+			names[i] = string(rune('a' + i%26))
+			qids[i] = wiregen.GenQid(rng)
+		}
+		for _, fc := range []*p9p.Fcall{
+			{Type: p9p.Twalk, Tag: 3, Message: p9p.MessageTwalk{Fid: 1, Newfid: 2, Wnames: names}},
+			{Type: p9p.Rwalk, Tag: 3, Message: p9p.MessageRwalk{Qids: qids}},
+		} {
+			if bs, ok := wiregen.RefEncode(fc); ok {
+				decodeFcall(r, codec, bs, "long-list")
+				decodeFcall(r, codec, bs[:len(bs)-1], "long-list-trunc")
+			}
+		}
+	}
 	for t := 0; t < 256; t++ {
 		decodeFcall(r, codec, append([]byte{byte(t)}, rng.Bytes(rng.Range(0, 40))...), "typebyte")
 	}
